@@ -474,6 +474,8 @@ pub struct Run {
     /// (history index from which it applies, discard limit in effect)
     pub limits: Vec<(usize, Option<usize>)>,
     pub finale_rounds: usize,
+    /// jobs that were started and have not ended when the run is judged
+    pub still_in_progress: usize,
 }
 
 fn worker_cells(f: &FRef) -> Vec<ActorCell> {
@@ -798,6 +800,13 @@ pub async fn run(cfg: Cfg) -> Run {
             Err(tokio::sync::oneshot::error::TryRecvError::Closed) => j.port_closed = true,
         }
     }
+    // a drain that was completed by a worker's death (not by a Finished message) is noticed by the factory at
+    // its next periodic tick at the latest: let two of them pass
+    if drained {
+        vsched::sleep(Duration::from_millis(250)).await;
+        vsched::quiesce();
+    }
+    let still_in_progress = world.in_progress().len();
     let factory_status = f.get_status();
     let live_workers = f.get_children().iter().filter(|c| c.get_status() <= ActorStatus::Draining).count();
     let r = Run {
@@ -814,6 +823,7 @@ pub async fn run(cfg: Cfg) -> Run {
         probe_lc,
         limits,
         finale_rounds: rounds,
+        still_in_progress,
     };
     f.stop(None);
     // workers blocked at their gate never finish on their own: kill what is left
